@@ -65,7 +65,7 @@ def work(task):
     st = out["stats"]
     p.evals += st["calls"]
     p.distinct_count += st["rerequests"]
-    for k in ("calls", "cold", "warm", "mutations", "rerequests", "reused_args"):
+    for k in ("calls", "cold", "warm", "mutations", "rerequests", "reused_args", "retained_checks"):
         p.counters["session " + k] += st[k]
     for e, c in st["entries"].items():
         p.counters["entry " + e] += c
